@@ -587,3 +587,125 @@ func ruleVisitExtract(rule string) RuleFn {
 		}
 	}
 }
+
+// ruleVisitRecords: every key built by connectionVisitor.Visit is recorded.
+func ruleVisitRecords(rule string) RuleFn {
+	return func(c *an.Ctx) {
+		c.Rule(rule, "X-visit-records: in connectionVisitor.Visit every key literal (the result's own type and each As type, for single and grouped results) is recorded in keyPaths on every path from its construction to the next iteration or the return - either by a direct keyPaths[k] = path or through checkKey, whose deferred closure records unconditionally; findAndValidateResults returns exactly the recorded keys and provide registers the constructor under every returned key. Otherwise a value is stored under a key for which no provider is registered: consumers of that key never trigger the constructor")
+		visit := c.Fn(rule, "(dig.connectionVisitor).Visit")
+		ck := c.Fn(rule, "(dig.connectionVisitor).checkKey")
+		if visit == nil || ck == nil {
+			return
+		}
+		// checkKey records unconditionally: a defer registered at entry whose closure updates keyPaths[k]
+		recOK := false
+		an.Instrs(ck, func(in ssa.Instruction) {
+			d, ok := in.(*ssa.Defer)
+			if !ok || in.Block().Index != 0 {
+				return
+			}
+			cl := an.StaticCallee(d)
+			if cl == nil {
+				return
+			}
+			an.Instrs(cl, func(i2 ssa.Instruction) {
+				if mu, ok := i2.(*ssa.MapUpdate); ok && strings.HasSuffix(an.Norm(mu.Map), "cv.keyPaths") && an.Norm(mu.Key) == "p:k" && i2.Block().Index == 0 {
+					recOK = true
+				}
+			})
+		})
+		n := 0
+		for _, kl := range keyLiterals(c) {
+			if kl.fn != visit {
+				continue
+			}
+			n++
+			var d ssa.Value
+			if v, ok := kl.fields["name"]; ok {
+				d = v
+			} else {
+				d = kl.fields["group"]
+			}
+			cons := "Visit records key (" + an.Norm(d) + ", " + an.Norm(kl.fields["t"]) + ")"
+			// recording instructions using a load of this literal
+			rec := an.NewGates()
+			var lastStore ssa.Instruction
+			for _, r := range an.Referrers(kl.al) {
+				switch x := r.(type) {
+				case *ssa.UnOp:
+					for _, rr := range an.Referrers(x) {
+						switch y := rr.(type) {
+						case *ssa.MapUpdate:
+							if strings.HasSuffix(an.Norm(y.Map), "cv.keyPaths") && y.Key == ssa.Value(x) {
+								rec.AddInstr(y)
+							}
+						case *ssa.Call:
+							if an.StaticCallee(y) == ck && recOK {
+								rec.AddInstr(y)
+							}
+						}
+					}
+				case *ssa.FieldAddr:
+					for _, rr := range an.Referrers(x) {
+						if st, ok := rr.(*ssa.Store); ok {
+							if lastStore == nil || (st.Block() == lastStore.Block() && indexOf(st.Block(), st) > indexOf(lastStore.Block(), lastStore)) {
+								lastStore = st
+							}
+						}
+					}
+				}
+			}
+			if rec.Len() == 0 || lastStore == nil {
+				c.Bad(rule, cons, "the key is built but never recorded in keyPaths: the constructor is not registered as a provider for it", kl.al, nil)
+				continue
+			}
+			hit, path := an.PathTo(visit, lastStore, func(i ssa.Instruction) bool {
+				if _, ok := i.(*ssa.Return); ok {
+					return true
+				}
+				// reaching the construction of this literal again = next iteration
+				return i == ssa.Instruction(kl.al)
+			}, rec)
+			if hit != nil {
+				c.Bad(rule, cons, "a path from building the key to the next iteration/return skips recording it: the value is later stored under this key although no provider is registered for it, so consumers of the key never run the constructor (members lost, or 'missing type')", kl.al, an.BlockPath(c.P, path))
+			} else {
+				c.OK(rule, cons, "recorded on every path", kl.al)
+			}
+		}
+		c.Floor(rule, "key literals in Visit", n, 4)
+		// findAndValidateResults returns exactly the recorded keys
+		if fv := c.Fn(rule, "(*dig.Scope).findAndValidateResults"); fv != nil {
+			good := false
+			for _, b := range fv.Blocks {
+				for _, in := range b.Instrs {
+					if mu, ok := in.(*ssa.MapUpdate); ok {
+						k := an.Norm(mu.Key)
+						if strings.HasPrefix(k, "next(range(makemap:") && strings.HasSuffix(k, "#1") {
+							good = true
+						}
+					}
+				}
+			}
+			c.Check(good, rule, "findAndValidateResults returns every recorded key", "keys[k] for k := range keyPaths", "the returned key set is not a copy of keyPaths", nil, nil)
+		}
+		// provide registers the node under every returned key: loop over keys with the providers update, no early exit
+		if prov := c.Fn(rule, "(*dig.Scope).provide"); prov != nil {
+			good := false
+			for _, e := range directWrites(prov) {
+				mu, ok := e.in.(*ssa.MapUpdate)
+				if !ok || e.field != "Scope.providers" || restoreLoop(mu) != nil {
+					continue
+				}
+				k := an.Norm(mu.Key)
+				v := an.Norm(mu.Value)
+				if strings.HasPrefix(k, "next(range(") && strings.Contains(k, "findAndValidateResults(") && strings.HasPrefix(v, "append(") {
+					// the update is unconditional inside the range loop: its block is the loop body
+					if mu.Block().Comment == "rangeiter.body" {
+						good = true
+					}
+				}
+			}
+			c.Check(good, rule, "provide registers the constructor under every key of its results", "for k := range keys: providers[k] = append(providers[k], n)", "the constructor is not appended to the providers of every validated key", nil, nil)
+		}
+	}
+}
